@@ -17,3 +17,39 @@ Definition dec_lt a b := match dec_cmp a b with Lt => true | _ => false end.
 Definition dec_gt a b := match dec_cmp a b with Gt => true | _ => false end.
 Definition dec_ge a b := negb (dec_lt a b).
 Definition dec_eq a b := match dec_cmp a b with Eq => true | _ => false end.
+
+(** ** Exact paths of rust_decimal's add / sub / mul / neg, written out.
+    [dec_add_exact x y] is defined exactly when the sum needs no rescaling: one operand is zero (the
+    library then returns the other operand unchanged) or both coefficients, aligned to the larger scale,
+    and their sum stay below 2^96; the result then has the larger scale. [dec_mul_exact] is defined when
+    an operand is zero (result 0 with scale 0) or the product of the coefficients stays below 2^96 and the
+    scales add up to at most 28. Everything else (rounding, rescaling, range errors) is left to the oracle. *)
+Definition pow10 (n : N) : Z := (10 ^ Z.of_N n)%Z.
+Definition dec_lim : Z := (2 ^ 96)%Z.
+Definition mkdec (z : Z) (s : N) : dec := {| d_neg := (z <? 0)%Z; d_coef := Z.abs_N z; d_scale := s |}.
+Definition dec_neg (x : dec) : dec := {| d_neg := negb (d_neg x); d_coef := d_coef x; d_scale := d_scale x |}.
+
+Definition dec_aligned (x y : dec) (sy : Z) : option dec :=
+  let s := N.max (d_scale x) (d_scale y) in
+  let cx := (dec_signed x * pow10 (s - d_scale x))%Z in
+  let cy := (sy * dec_signed y * pow10 (s - d_scale y))%Z in
+  if ((Z.abs cx <? dec_lim) && (Z.abs cy <? dec_lim) && (Z.abs (cx + cy) <? dec_lim))%Z
+  then Some (mkdec (cx + cy) s) else None.
+
+Definition dec_add_exact (x y : dec) : option dec :=
+  if dec_is_zero x then Some y
+  else if dec_is_zero y then Some x
+  else dec_aligned x y 1.
+
+Definition dec_sub_exact (x y : dec) : option dec :=
+  if dec_is_zero x then Some (if dec_is_zero y then y else dec_neg y)
+  else if dec_is_zero y then Some x
+  else dec_aligned x y (-1).
+
+Definition dec_mul_exact (x y : dec) : option dec :=
+  if dec_is_zero x || dec_is_zero y then Some dec_zero
+  else
+    let c := d_coef x * d_coef y in
+    let s := d_scale x + d_scale y in
+    if (c <? 2 ^ 96) && (s <=? 28) then Some {| d_neg := xorb (d_neg x) (d_neg y); d_coef := c; d_scale := s |}
+    else None.
